@@ -87,7 +87,7 @@ T_Record ==
                      canon |-> IF RecCanonPinned(r, s) THEN e.canon ELSE Free,
                      hdr_eq |-> e.hdr_eq, parsed_eq |-> e.parsed_eq,
                      q_eq |-> e.q_eq, q_canon |-> e.q_canon,
-                     hash_ok |-> e.hash_ok, issues |-> e.issues]
+                     hash_ok |-> e.hash_ok, hash_ok_hq |-> e.hash_ok_hq, issues |-> e.issues]
            IN Matches(o, RecExp(r, s), RecDev(r, s))
 
 TNext == T_Devs \/ T_Label \/ T_Name \/ T_CharStr \/ T_Rdata \/ T_Record
